@@ -359,4 +359,6 @@ type Injector struct {
 	Vars          []*InjectorParam
 	Stmts         []InjectorStmt
 	IsReturnError bool
+	// ErrgroupVar names the errgroup variable when "eg" is taken by the user's package
+	ErrgroupVar string
 }
